@@ -25,6 +25,16 @@ def kwf(**kw):
   return 10 * vals[0] + vals[1]
 
 
+def count_len(xs):
+  """len(xs), counting its own evaluations in TICKS."""
+  TICKS[0] += 1
+  return len(xs)
+
+
+def kwlen(payload=b''):
+  return len(payload)
+
+
 def tick():
   TICKS[0] += 1
   return 100 * TICKS[0]
